@@ -208,8 +208,10 @@ class LTLExplainer(LtlAstVisitor):
             op1_intervals, op2_intervals = explain_unsat_iff(op1_signal, op2_signal, intervals)
         self.explanations[element.name] = intervals
 
-        self.visit(element.children[0], [op1_intervals, flag])
-        self.visit(element.children[1], [op2_intervals, flag])
+        # the verdict depends on both operands keeping their own verdicts, whichever they are
+        for polarity in (flag, not flag):
+            self.visit(element.children[0], [op1_intervals, polarity])
+            self.visit(element.children[1], [op2_intervals, polarity])
 
     def visitXor(self, element, args):
         intervals = args[0]
@@ -222,8 +224,10 @@ class LTLExplainer(LtlAstVisitor):
             op1_intervals, op2_intervals = explain_unsat_xor(op1_signal, op2_signal, intervals)
         self.explanations[element.name] = intervals
 
-        self.visit(element.children[0], [op1_intervals, flag])
-        self.visit(element.children[1], [op2_intervals, flag])
+        # the verdict depends on both operands keeping their own verdicts, whichever they are
+        for polarity in (flag, not flag):
+            self.visit(element.children[0], [op1_intervals, polarity])
+            self.visit(element.children[1], [op2_intervals, polarity])
 
     def visitEventually(self, element, args):
         intervals = args[0]
